@@ -187,9 +187,9 @@ def concat(a, b):
             continue
         else:
             parts.append(v)
-    if len(parts) == 1:
+    if len(parts) == 1 and (isinstance(parts[0], tuple) or is_seq(parts[0])):
         return parts[0]
-    return T.app("concat", *parts)
+    return T.app("concat", *parts)   # (a single part that is not known to be a sequence keeps the marker: it was used as one)
 
 
 def _load_known():
@@ -1029,6 +1029,9 @@ class VN:
                          *[T.app("kw:" + kk, self._as_term(vv)) for kk, vv in sorted(kw.items())])
         if attr == "append" and kbase is not None and is_tuple(st.env.get(kbase)):
             st.env[kbase] = st.env[kbase] + (args[0],)
+            return NONE
+        if attr == "append" and kbase is not None and isinstance(st.env.get(kbase), T.Poly) and is_seq(st.env[kbase]) and len(args) == 1:
+            st.env[kbase] = concat(st.env[kbase], (args[0],))
             return NONE
         if attr == "extend" and kbase is not None and is_tuple(st.env.get(kbase)) and is_tuple(args[0]):
             st.env[kbase] = st.env[kbase] + args[0]
